@@ -73,6 +73,8 @@ RULE = ('case = one byte stream (header [+ payload], EOF after it); it is run th
         'configuration (one instance / two instances / mixin() / mixed classes); each feed order (all '
         'interleavings up to 40, else seeded) = one evaluation; distinct schedules are counted as conc-schedule')
 ASSUMPTIONS = ['ScriptSocket.recv_into never returns more than requested and returns 0 at end of stream (EOF)',
+               'cases marked settings run with proxyproto.invalid_pp_*/unknown_pp_* overridden per case to four '
+               'distinct sentinels (restored afterwards); their mechanisms carry the prefix configured-addresses/',
                'unknown_pp_source_address and invalid_pp_source_address are both (None, None) in the library, so '
                '"UNKNOWN accepted" and "rejected as invalid" are not distinguishable at the handler and are not '
                'distinguished by the oracle',
@@ -92,7 +94,8 @@ ASSUMPTIONS = ['ScriptSocket.recv_into never returns more than requested and ret
                'family/length whose declared block is present must be dropped']
 REQUIRED_HITS = ['handler-address-compared', 'consumption-compared', 'malformed-judged', 'local-drop-judged',
                  'autodetect-parser-compared', 'destination-compared',
-                 'conc-connection-judged', 'conc-prefix-interleaved',
+                 'conc-connection-judged', 'conc-prefix-interleaved', 'configured-invalid-address-compared',
+                 'configured-unknown-address-compared', 'edge-configured-invalid-address-compared',
                  'edge-address-compared', 'edge-smtp-dialogue-compared', 'edge-banner-first-judged', 'edge-local-judged', 'edge-bad-header-judged']
 SHARDS = {'quick': 8, 'thorough': 16}
 BUDGET = {'quick': 50, 'thorough': 800}
@@ -600,6 +603,7 @@ def gen_all(tier, seed):
 
 
 EDGE_EVERY = {'quick': 12, 'thorough': 3}
+SETTINGS_NAMES = ('v1-unknown', 'v1-unknown-filler', 'v2-unspec', 'v2-local')
 
 
 def gen_cases(tier, seed, shard, nshards):
@@ -613,6 +617,13 @@ def gen_cases(tier, seed, shard, nshards):
             c['edge'] = len(c['hdr']) <= 2000 and (c['kind'] in ('wf', 'wf-local', 'open')
                                                    or (n // 7) % EDGE_EVERY[tier] == 0)
             yield c
+            # the same case once more with the module's invalid / unknown addresses configured to sentinels:
+            # the named UNKNOWN / UNSPEC / LOCAL headers, all LOCAL cases, 1 in 9 of everything else
+            if c['kind'] != 'wf-rand' and (n % 9 == 0 or c['kind'] == 'wf-local' or c.get('name') in SETTINGS_NAMES):
+                d = dict(c)
+                d['settings'] = True
+                d['edge'] = c['edge'] and (n % 2 == 0 or c.get('name') in SETTINGS_NAMES)
+                yield d
 
 
 # --------------------------------------------------------------------------- real SMTP edge behind the mix-ins
@@ -815,6 +826,8 @@ def run_edge(case, R, found):
                 R.hit('edge-local-judged')
             elif kind == 'bad':
                 R.hit('edge-bad-header-judged')
+                if SETTINGS_MODE and seen['banner']:
+                    R.hit('edge-configured-invalid-address-compared')
                 if exc is not None and seen['banner']:
                     R.count('edge-smtp-layer-exception-after-bad-header/%s' % type(exc).__name__)
             if kind == 'ok' and ref['fam'].startswith('UNIX'):
@@ -1146,7 +1159,33 @@ def judge(mode, ref, ss, calls, trace, exc):
     return out
 
 
+SENTINELS = {'invalid_pp_source_address': (None, 'configured-invalid-source'),
+             'invalid_pp_dest_address': (None, 'configured-invalid-destination'),
+             'unknown_pp_source_address': (None, 'configured-unknown-source'),
+             'unknown_pp_dest_address': (None, 'configured-unknown-destination')}
+SETTINGS_MODE = False
+
+
 def run_case(case, R):
+    """A case marked 'settings' runs with the four documented module settings of slimta.util.proxyproto
+    overridden to distinct sentinels (first element None, so the SMTP session still has no client ip): a bad
+    header must yield exactly the configured invalid address, UNKNOWN / UNSPEC exactly the configured unknown one."""
+    global INVALID, UNKNOWN, SETTINGS_MODE
+    if not case.get('settings'):
+        return run_case_inner(case, R)
+    saved = {k: getattr(PP, k) for k in SENTINELS}
+    try:
+        for k, v in SENTINELS.items():
+            setattr(PP, k, v)
+        INVALID, UNKNOWN, SETTINGS_MODE = PP.invalid_pp_source_address, PP.unknown_pp_source_address, True
+        return run_case_inner(case, R)
+    finally:
+        for k, v in saved.items():
+            setattr(PP, k, v)
+        INVALID, UNKNOWN, SETTINGS_MODE = PP.invalid_pp_source_address, PP.unknown_pp_source_address, False
+
+
+def run_case_inner(case, R):
     if case['kind'] == 'conc':
         return run_conc(case, R)
     hdr, payload = case['hdr'], case['payload']
@@ -1189,8 +1228,13 @@ def run_case(case, R):
                 elif kind == 'bad':
                     R.hit('malformed-judged')
                     R.hit('malformed-bound-compared')
+                    if SETTINGS_MODE and calls:
+                        R.hit('configured-invalid-address-compared')
+                        R.observe('configured-invalid-seen', (mode, calls[0][0]))
                 else:
                     R.hit('open-not-judged-on-address')
+                if SETTINGS_MODE and kind == 'ok' and ref['fam'] in ('UNKNOWN', 'UNSPEC'):
+                    R.hit('configured-unknown-address-compared')
             if (kind in ('ok', 'local') and payload and ss.recv_calls >= 2) or (corrupted and kind != 'ok'):
                 R.nontrivial(stream)
             for mech, what in probs:
@@ -1214,4 +1258,4 @@ def run_case(case, R):
     if case.get('edge'):
         run_edge(case, R, found)
     for (mech, mode), (what, wit) in sorted(found.items()):
-        R.violation(mech, what, wit)
+        R.violation('configured-addresses/' + mech if SETTINGS_MODE else mech, what, wit)
